@@ -136,6 +136,21 @@ def dir_tail(rng, block_only=True):
     return rng.choice([" // note", " // a /* b", " //"])
 
 
+def gen_multiline_directive(rng, col1=True):
+    """A directive spread over several physical lines: spliced #define, or a block comment carried over lines."""
+    r = rng.random()
+    m = rng.choice(VALS)
+    if r < 0.4:
+        body = rng.choice(["1", "2", "0"])
+        return [f"#undef {m}", f"#define {m} \\", rng.choice(["", "   "]) + body]
+    if r < 0.6:
+        return [f"#undef {m}", f"#define {m} \\", "  \\", " 1"]
+    if r < 0.85:
+        return [f"#undef {m} /* a comment", rng.choice(["   that goes on", "", " * with a star", "// and slashes"]),
+                rng.choice(["*/", "  */", " end */  "]), f"#define {m} 1"]
+    return ["#if 1 /* why", "  not */ && 1", T, "#endif"]
+
+
 def gen_cond(rng):
     r = rng.random()
     if r < 0.3:
@@ -186,6 +201,8 @@ def gen_block(rng, depth, budget, col1=False):
             out.append(rng.choice([f"#define {m}", f"# define {m} 1", f"#define {m} 1 "]))
         elif r < 0.82:
             out.append("#undef " + rng.choice(FLAGS + VALS))
+        elif r < 0.86:
+            out += gen_multiline_directive(rng, col1)
         elif depth < 3:
             out.append(gen_cond(rng) + dir_tail(rng, col1))
             out += gen_block(rng, depth + 1, budget // 2, col1)
@@ -271,6 +288,8 @@ def features(text):
         f.add("conditional")
     if re.search(r"^[ \t]*#.*/[*/]", text, re.M):
         f.add("directive_comment")
+    if re.search(r"^[ \t]*#[^\n]*(\\\n|/\*[^\n]*\n)", text, re.M):
+        f.add("multiline_directive")
     if "''" in text or '""' in text:
         f.add("doubled_quote")
     if re.search(r"^[ \t]*&", text, re.M):
@@ -379,6 +398,8 @@ def gen_valid_block(rng, depth):
             m = rng.choice(VALS)
             out.append(f"#undef {m}")
             out.append(f"#define {m} {rng.choice([0, 1, 2])}")
+        elif r < 0.87:
+            out += [l.replace(T, "print *, " + T) for l in gen_multiline_directive(rng)]
         elif depth < 2:
             out.append(gen_cond(rng) + dir_tail(rng))
             out += gen_valid_block(rng, depth + 1)
